@@ -157,7 +157,9 @@ class Harness:
                         out.append(fut)
                         continue
                     self.mode[f'{label}#{i}'] = 'async'
-                    if self.p_task and self._p('task', label, i) < self.p_task:
+                    if self.p_task and self.mode.get(label) == 'sync' and self._p('task', label, i) < self.p_task:
+                        # (only in lists a resolver returns synchronously: a list that an awaitable resolver produces may be
+                        # discarded unseen when a stop lands in the same iteration, and the library cannot look inside it)
                         import asyncio
                         self.mode[f'{label}#{i}'] = 'task'
                         out.append(asyncio.ensure_future(self._item(x, f'{label}#{i}')))
